@@ -32,7 +32,7 @@ type runner struct {
 	r *vlib.Run
 }
 
-const rule = "distinct_nontrivial = distinct (topology kind, variant, size, signedness, TC-all, qname-min level, firewall mode, outbound budget) tuples for which at least one client query caused upstream packets at the scripted servers; evaluations = client replies judged + DNSSEC work-API verifications judged"
+const rule = "distinct_nontrivial = distinct (topology kind, variant, size, signedness, TC-all, qname-min level, firewall mode, outbound budget) tuples for which at least one client query caused upstream packets at the scripted servers; evaluations = client replies judged + off/shadow pairs compared + over-budget replies and follow-ups judged + DNSSEC work-API cases judged"
 
 func main() {
 	r := vlib.Start("C12", "exploration")
@@ -118,23 +118,38 @@ func main() {
 	for _, k := range kinds {
 		r.Require("kind/"+k, int64(nTopo/len(kinds)))
 	}
+	// every class of hostile data the statement names was really exercised
+	// under enforce: upstream packets were caused, and a budget was crossed
+	for _, c := range classes {
+		r.Require("class/"+c+"/topologies", int64(nTopo/len(kinds)))
+		r.Require("class/"+c+"/enforce_queries_with_upstream_packets", int64(nTopo/len(kinds))*2)
+		r.Require("class/"+c+"/enforce_budget_crossed_runs", int64(nTopo/len(kinds)))
+	}
 	r.Require("replies_judged", int64(nTopo*8))
+	r.Require("terminated_in_time", int64(nTopo*8))
 	r.Require("enforce_queries_counted", int64(nTopo*4))
 	r.Require("enforce_queries_with_upstream_packets", int64(nTopo*3))
 	r.Require("enforce_budget_fully_spent", int64(nTopo/3))
+	r.Require("enforce_budget_crossed_runs", int64(nTopo))
 	r.Require("over_budget_servfails", int64(nTopo/2))
 	r.Require("over_budget_servfails_with_ede", int64(nTopo/3))
+	r.Require("over_budget_servfails_non_edns_client", 2)
 	r.Require("followup_checks", int64(nTopo/8))
 	r.Require("followup_resolved_again_upstream", int64(nTopo/8))
 	r.Require("off_shadow_pairs_compared", int64(nTopo*2/3))
+	r.Require("off_shadow_pairs_compared_with_shadow_crossing", int64(nTopo/3))
 	r.Require("shadow_stacks_with_budget_crossing", int64(nTopo/3))
-	r.Require("enforce_vs_off_compared", int64(nTopo))
-	r.Require("enforce_tcp_packets", 20)
-	r.Require("enforce_packets_after_reply", 5)
-	r.Require("enforce_dnssec_budget_servfails", 2)
+	r.Require("enforce_queries_with_tcp_fallback", 20)
+	r.Require("enforce_tcp_packets", 40)
+	r.Require("enforce_queries_with_detached_packets_after_reply", 3)
+	r.Require("enforce_dnssec_budget_servfails", 4)
 	r.Require("workapi_cases", int64(nWork))
+	r.Require("workapi_cases_with_expensive_ops", int64(nWork/2))
 	r.Require("workapi_refusals_observed", int64(nWork/4))
 	r.Require("workapi_aborts_checked", int64(nWork/4))
-	r.Require("workapi_unlimited_agreement", int64(nWork/4))
+	r.Require("workapi_limited_runs_within_limits", int64(nWork/10))
+	r.Require("workapi_unlimited_agreement", int64(nWork/2))
+	r.Require("workapi_nsec3_above_iteration_cap_cases", int64(nWork/60))
+	r.Require("workapi_nsec3_within_cap_hashed", int64(nWork/20))
 	r.Finish(rule)
 }
